@@ -11,7 +11,7 @@ SPEC = dict(
                      R("c02_aio", "asan", 4, 300, "provider", 600),
                      R("c02_aio", "asan", 8, 678, "grid", 600),
                      # valgrind memcheck lines: only memcheck reports are judged (see vf FLAVORS["vg"])
-                     R("c02_aio", "vg", 4, 30, "mixed", 1800)],
+                     R("c02_aio", "vg", 4, 30, "mixed", 150)],
                floor={"operations": 6000, "@classes": 600, "hook_aio_finish": 8000, "not_running_checks": 5000, "free_in_flight": 100,
                       # operation kinds: completion won and cancel / timeout / stop won, for every kind
                       "@class:sleep/ok": 1, "@class:sleep/canceled": 1, "@class:sleep/stopped": 1, "@class:sleep/timedout": 1,
